@@ -214,6 +214,11 @@ func c08EstRun(rc *RunCtx, p *C08Params) {
 			}
 			data, kind = keyedMalformed(hr, x.ref12, k13, epoch, toServer, peerCID, uint64(1000+j))
 			kind = "keyed:" + kind
+		case p.Mode == "F":
+			// a reassembly flood against an established session: cleartext fragments of future
+			// handshake messages, which such a session has no use for
+			spoofSeq++
+			data, kind = floodFragment(hr, p.Flood, j, int(d.A), int(spoofSeq&0xffffff)), "fragment-flood-"+p.Flood
 		case p.Mode == "R":
 			// a spoofed retransmission: one of the peer's cleartext handshake datagrams again,
 			// with record numbers the replay window has not seen
@@ -290,17 +295,21 @@ func c08EstRun(rc *RunCtx, p *C08Params) {
 
 		return
 	}
-	// mode U: the endpoint keeps serving valid traffic
+	// modes U and F: the endpoint keeps serving valid traffic
+	what, tag := "unauthenticatable datagrams", ""
+	if p.Mode == "F" {
+		what, tag = "cleartext fragments of future handshake messages ("+p.Flood+")", ":after-fragment-flood"
+	}
 	for i := 0; i < 2; i++ {
 		if !write("c", 200+i, 30+i) || !write("s", 200+i, 30+i) {
-			rc.Violate("service-lost:write", "after %d unauthenticatable datagrams a genuine Write failed", p.N)
+			rc.Violate("service-lost:write"+tag, "after %d %s a genuine Write failed", p.N, what)
 
 			return
 		}
 	}
 	s.Run(func() bool { return len(rdS.Got) >= len(sentC) && len(rdC.Got) >= len(sentS) }, 10*time.Second)
 	if len(rdS.Got) != len(sentC) || len(rdC.Got) != len(sentS) {
-		rc.Violate("service-lost:read", "after %d unauthenticatable datagrams the server read %d of %d and the client %d of %d genuine payloads (reader errors: %v %v)", p.N, len(rdS.Got), len(sentC), len(rdC.Got), len(sentS), rdS.Errs, rdC.Errs)
+		rc.Violate("service-lost:read"+tag, "after %d %s the server read %d of %d and the client %d of %d genuine payloads (reader errors: %v %v)", p.N, what, len(rdS.Got), len(sentC), len(rdC.Got), len(sentS), rdS.Errs, rdC.Errs)
 
 		return
 	}
